@@ -244,6 +244,24 @@ fn index_k<K: Kind>(c: &FileCase, ctx: &mut Ctx) -> Result<(), Fail> {
         // path-based reader must behave the same
         let r = shapefile::ShapeReader::from_path(&p).map_err(|e| Fail::new("open-error", err_str(&e)))?;
         ensure!(r.shape_count().ok() == Some(n), "shape-count", "from_path reader reports {:?} shapes, {} written", r.shape_count().ok(), n);
+        // the complete reader opened by path is "a reader given both files" as well: count, seek through the index, size hint
+        std::fs::write(p.with_extension("dbf"), dbf_with_rows(n)).map_err(|e| Fail::new("disk-io", e.to_string()))?;
+        let mut cr = shapefile::Reader::from_path(&p).map_err(|e| Fail::new("open-error", format!("Reader::from_path: {}", err_str(&e))))?;
+        ensure!(cr.shape_count().ok() == Some(n), "shape-count", "Reader::from_path reports {:?} shapes, {} written", cr.shape_count().ok(), n);
+        ensure!(cr.iter_shapes_and_records().size_hint().0 <= n, "size-hint", "Reader::from_path: size hint {:?} for {} shapes", cr.iter_shapes_and_records().size_hint(), n);
+        if n > 0 {
+            let k = n - 1;
+            cr.seek(k).map_err(|e| Fail::new("index-vs-sequential", format!("Reader::from_path: seek({}) of {} fails: {}", k, n, err_str(&e))))?;
+            let first = cr.iter_shapes_and_records().next();
+            match first {
+                Some(Ok((s, _))) => {
+                    if let Err(m) = same_after_read(&expected_after_read(&shapes[k].view()), &view_shape(&s)) {
+                        fail!("index-vs-sequential", "Reader::from_path: first shape after seek({}) is not shape {}: {}", k, k, m);
+                    }
+                }
+                other => fail!("index-vs-sequential", "Reader::from_path: after seek({}) of {}: {:?}", k, n, other.map(|r| r.map(|_| ()).map_err(|e| err_str(&e)))),
+            }
+        }
         (a, b)
     } else {
         match write_bytes_hist(&shapes, true, c.fin, c.mid_fins, c.rejects) {
